@@ -356,6 +356,10 @@ func sacramento(rainfall, pet data.ND1Float64,
 						ratls := 1. - alzfsc/alzfsm
 						percs := math.Min(alzfsm-alzfsc,
 							percfw*(1.-hpl*(ratlp+ratlp)/(ratlp+ratls)))
+						if percs < 0 {
+							// the primary store's share of the percolation is at most all of it
+							percs = 0
+						}
 						alzfsc = alzfsc + percs
 						//             Check for spill from supplemental to primary
 						if alzfsc > alzfsm {
